@@ -50,6 +50,10 @@ def main():
                               'ExtrOcamlBasic extraction + ocaml/tbdrv.ml (ISA monitor)', 'Verilator 5.006, g++ 12; harness/tb_harness.cpp, harness/sim_harness.cpp']
     ck.assumptions = ['judged: ISA run exits, is defined, stays below byte address 800000, READ does not overwrite its own SVC, first instruction is not a system call, '
                       'and no word outside the header-announced image is read before it is written (the two loaders differ beyond the image; RTL memory is random there)',
+                      'KNOWN FINDINGS (known_findings.json), both inside the literal quantifier and exhibited on every run by hand-assembled binaries: '
+                      'kind read-overwrites-own-svc (a READ whose result slot is the word holding its own SVC: hextb retires the overwritten byte) and '
+                      'kind first-instruction-svc (the request of the instruction at byte 0 is never sampled by hextb); they are the hypotheses read_safe / '
+                      '"first instruction is not a system call" of C06_tb_equals_sim',
                       'file streams (>= 256) are not exercised (no simin/simout files in the scratch directory); console only',
                       'hextb is run with 3 Verilator seeds per case; power-on independence itself is C13']
     status = gen_rtl.generate_all()
@@ -180,6 +184,30 @@ def main():
                                   'replay_cmd': './check C06 --replay <this file>'}, tags={'kind': 'tb-vs-sim'})
             elif len(ck.cov['samples']) < 6 and dist['judged'] % 9 == 1:
                 ck.sample({'program': name, 'input': list(inp), 'steps': mon['steps'], 'exit': sim['rc'], 'stdout': sim['out'].decode('latin1')[:60], 'consumed': sim['consumed']})
+    # ---- the two known-finding shapes inside the literal quantifier (judged; reported through known_findings.json)
+    exhibits = []
+    if not ck.replay_arg:
+        for sname, (simg, sinp, kind, sim_does, tb_does) in sorted(tbcommon.known_shapes().items()):
+            if sname == 'read-own-svc-wrap':
+                continue                      # never exits (C03 exhibits it clock by clock)
+            b = os.path.join(d, 'shape-%s.bin' % sname)
+            open(b, 'wb').write(simg)
+            ip = os.path.join(d, 'shape.in')
+            open(ip, 'wb').write(sinp)
+            rs, os_, es = run3([hexsim, b, '--max-cycles', '2000'], cwd=d, stdin=open(ip, 'rb'), timeout=120)
+            tbs = []
+            for sd_ in seeds:
+                rt, ot, et = run3([hextb, b, '--max-cycles', '2000', '+verilator+seed+%d' % sd_], cwd=d, stdin=open(ip, 'rb'), timeout=120)
+                tbs.append((rt & 0xff, strip_banner(ot)))
+            ck.cov['evaluations'] += 1
+            differs = any(t != (rs & 0xff, os_) for t in tbs)
+            exhibits.append({'shape': sname, 'kind': kind, 'differs': differs, 'hexsim': [rs & 0xff, os_.decode('latin1')], 'hextb': [[t[0], t[1].decode('latin1')] for t in tbs]})
+            if differs:
+                ck.violation('%s (%s): hexsim %s -> exit %d output %r; hextb %s -> %s'
+                             % (sname, kind, sim_does, rs & 0xff, os_, tb_does, [(t[0], t[1]) for t in tbs]),
+                             {'program': 'shape/' + sname, 'binary_hex': simg.hex(), 'input': list(sinp), 'hexsim': [rs & 0xff, list(os_)],
+                              'hextb': [[t[0], list(t[1])] for t in tbs], 'replay_cmd': './check C06 --replay <this file>'}, tags={'kind': kind})
+    ck.cov['known_finding_exhibits'] = exhibits
     ck.cov['distinct_nontrivial'] = len(distinct)
     ck.cov['rule'] = ('(binary, input): shipped tests/x and tests/asm programs and generated X programs (tools/xgen.py directed shapes) compiled by the real xcmp/hexasm, '
                       'inputs of length 0-64 incl. EOF; judged iff the ISA monitor accepts the run and it exits; distinct by (program, input)')
